@@ -237,11 +237,15 @@ class Extractor:
         keep = [d for d in derives if d in ('Clone', 'Copy', 'Debug', 'Eq', 'PartialEq')]
         if 'noderive' in flags:
             keep = []
-        if 'PartialEq' in keep and 'Eq' in keep and 'nostructural' not in flags:
-            keep.append('Structural')
+        structural = ('PartialEq' in keep and 'Eq' in keep and 'nostructural' not in flags
+                      and kind in ('struct', 'enum')
+                      and not re.match(r'pub\s+' + kind + r'\s+\w+\s*<', item))
         if keep:
             self.out.add('#[derive(%s)]\n' % ', '.join(keep), 'src', file, line)
         self.out.add(item + '\n', 'src', file, line)
+        if structural:
+            # (derive(Structural) crashes this Verus inside nested modules; the manual impl is equivalent)
+            self.out.add('unsafe impl Structural for %s {}\n' % name, 'src', file, line)
         self.items.append({'file': file, 'kind': kind, 'name': name, 'line': line,
                            'rules_fired': fired})
 
